@@ -1080,8 +1080,19 @@ pub(crate) fn eval_up_to(
     for syn_id in syn_ids.iter().rev() {
         // TODO: this is iterating items twice, which will be slower.
         if let Some(expr) = find_expr_of_id(items, syn_id.id()) {
-            expr_id = Some(expr.id);
             position = Some(expr.position.clone());
+
+            // Evaluating a parenthesised expression just schedules the
+            // expression inside it, so the evaluator never finishes
+            // the parentheses themselves. Stop at the inner expression,
+            // whose value it is.
+            let mut expr = expr;
+            while let Expression_::Parentheses(paren) = &expr.expr_ {
+                let inner = paren.expr.as_ref().clone();
+                expr = inner;
+            }
+
+            expr_id = Some(expr.id);
             break;
         }
     }
